@@ -360,6 +360,7 @@ func init() {
 			Assume: []string{"batches mixing a PEG request with other transactions are a recorded finding and are not generated here"},
 			Profiles: func(c *Ctx) []modelParams {
 				ps := featProfiles(c, 4, 32, 0, "c16", "quiet")
+				ps = append(ps, modelParams{Seed: c.Seed*1000 + 650, Features: []string{"quiet", "bank-mixed-conversion"}, Upto: 110})
 				return ps
 			},
 			NonTrivial: func(rs []*orch.Result) (int64, map[string]interface{}) {
